@@ -284,6 +284,14 @@ impl Prop for C13 {
     fn floor(&self, tier: Tier) -> u64 {
         tier.pick(2_000, 50_000)
     }
+    fn post(&self, ctx: &Ctx) -> Option<CaseOut> {
+        let mut out = CaseOut::default();
+        crate::sanit::miri_lexer(ctx, &mut out);
+        if ctx.tier == Tier::Thorough {
+            crate::sanit::asan_replay(ctx, "C13", &mut out);
+        }
+        Some(out)
+    }
     fn run_case(&self, ctx: &Ctx, idx: u64) -> CaseOut {
         let mut out = CaseOut::default();
         let mut rng = Rng::derive(ctx.seed, "C13", idx);
